@@ -168,16 +168,18 @@ where
             .replace(" <", "<")
             .replace('>', "|omit_inv ")
             .replace('<', "|omit_fwd ")
-            .replace("₀=", "_0=")
-            .replace("₁=", "_1=")
-            .replace("₂=", "_2=")
-            .replace("₃=", "_3=")
-            .replace("₄=", "_4=")
-            .replace("₅=", "_5=")
-            .replace("₆=", "_6=")
-            .replace("₇=", "_7=")
-            .replace("₈=", "_8=")
-            .replace("₉=", "_9=")
+            // Subscript digits are sugar for indices - in the key of a key=value pair,
+            // in a flag (push v₁), and in the name looked up by a value (x=$x₀)
+            .replace('₀', "_0")
+            .replace('₁', "_1")
+            .replace('₂', "_2")
+            .replace('₃', "_3")
+            .replace('₄', "_4")
+            .replace('₅', "_5")
+            .replace('₆', "_6")
+            .replace('₇', "_7")
+            .replace('₈', "_8")
+            .replace('₉', "_9")
             .replace("$ ", "$") // But keep " $" as is!
             .split_whitespace()
             .collect::<Vec<_>>()
